@@ -310,6 +310,8 @@ func runAdvertiser(t *testing.T, sc advScenario, hook func(w *simWorld, a *Adver
 				hop := ev.Hop
 				if hop == 0 {
 					hop = 255
+				} else if hop == 256 {
+					hop = 0
 				}
 				from := netip.MustParseAddr(ev.From)
 				if from.Is6() && from.IsLinkLocalUnicast() {
